@@ -340,6 +340,9 @@ def run_unit(unit_path, repo=None, twin=True):
             return res
         dt, rawt = parse_diags(errt)
         ft, hardt = classify(dt, wt, gent)
+        # an rlimit inside the twin (Verus re-running queries to collect several errors) is not a
+        # verdict; what counts is that every function's probe is refuted below
+        hardt = [h for h in hardt if h["kind"] != "rlimit"]
         if hardt:
             res.update(status="undecided", reason="vacuity twin: %s: %s" % (hardt[0]["kind"], hardt[0]["message"]))
             return res
@@ -354,6 +357,7 @@ def run_unit(unit_path, repo=None, twin=True):
                 return res
             dt, rawt = parse_diags(errt)
             ft, hardt = classify(dt, wt, gent)
+            hardt = [h for h in hardt if h["kind"] != "rlimit"]
             if hardt:
                 res.update(status="undecided", reason="vacuity twin: %s: %s" % (hardt[0]["kind"], hardt[0]["message"]))
                 return res
